@@ -407,3 +407,19 @@ func ObjNameOfType(t types.Type) string {
 	}
 	return t.String()
 }
+
+// LastField returns the struct field an expression finally selects, looking through
+// parentheses and index expressions (c.cells[i].sequences → sequences; c.cells[i] → cells).
+func LastField(info *types.Info, e ast.Expr) *types.Var {
+	for {
+		e = ast.Unparen(e)
+		switch x := e.(type) {
+		case *ast.IndexExpr:
+			e = x.X
+		case *ast.SelectorExpr:
+			return FieldVar(info, x)
+		default:
+			return nil
+		}
+	}
+}
